@@ -336,6 +336,14 @@ func ruleC08(w *World, r *Report) {
 	ruleC08PFD(w, r)
 	ruleC08KeepUE(w, r)
 	ruleUP4AppKey(w, r, "C08", "R08.6")
+	// R08.7: which PDRs UP4 treats as "no filter" (application ID 0, no applications entry) — the predicate
+	// agrees with the applications key on all valuations (C04 R04.9, re-filed)
+	r.withRule("R08.7", func() { ruleC04AppFilterEmpty(w, r) })
+	rulePFDLoopExits(w, r, "C08", "R08.9")
+	// R08.8: the BESS port rules carry the port and mask of the side they are expanded from (C17 R17.2, re-filed)
+	r.withRule("R08.8", func() {
+		ruleC17Cartesian(w, r, w.Fn(P, "pfcpiface.CreatePortRangeCartesianProduct"), w.Fn(P, "pfcpiface.(portRange).asComplexTernaryMatches"), w.Fn(P, "pfcpiface.(portRange).asTrivialTernaryMatch"), w.Fn(P, "pfcpiface.(portRange).isRangeMatch"))
+	})
 }
 
 var flowLeafRe = regexp.MustCompile(`ipFilterRule(\.[A-Za-z0-9_]+)+`)
